@@ -246,3 +246,98 @@ func H_C18_grid_cos_self() {
 	vAssert(vAnd(r >= 0, r <= 1e-5), "cosine-self-near-zero")
 	vCover("ran")
 }
+
+func init() {
+	vHarnesses["H_C18_wide"] = H_C18_wide
+	vHarnesses["H_C18_wide_onehot"] = H_C18_wide_onehot
+	vHarnesses["H_C18_wide_onehot_t"] = H_C18_wide_onehot_t
+}
+
+var vWideDims = []int{4, 5, 7, 8, 9, 15, 16, 17, 24, 32, 33, 64}
+
+// the definitions at dimensions beyond 3 (loop unrolling / blocking boundaries): on the grid domain every
+// partial sum of squares / products is exact in float32, so the result does not depend on the summation
+// order and must equal the sequential reference bit for bit.
+func H_C18_wide() {
+	d := vWideDims[vChoose("dim", len(vWideDims))]
+	a, b := vGridVec("a", d), vGridVec("b", d)
+	a0 := vCopy(a)
+	var ss, dd, dot float32
+	for i := range a {
+		ss += a[i] * a[i]
+		df := a[i] - b[i]
+		dd += df * df
+		dot += a[i] * b[i]
+	}
+	n := float32(math.Sqrt(float64(ss)))
+	vAssert(vSameF32(Norm(a), n), "norm-definition")
+	vAssert(vSameF32(l2SquaredDistanceImpl.Calculate(a, b), dd), "l2sq-definition")
+	vAssert(vSameF32(euclideanDistanceImpl.Calculate(a, b), float32(math.Sqrt(float64(dd)))), "l2-is-sqrt-of-l2sq")
+	cl := dot
+	if dot > 1 {
+		cl = 1
+	} else if dot < -1 {
+		cl = -1
+	}
+	vAssert(vSameF32(cosineDistanceImpl.Calculate(a, b), 1-cl), "cosine-is-one-minus-clamped-dot")
+	for k, dist := range []Distance{euclideanDistanceImpl, l2SquaredDistanceImpl, cosineDistanceImpl} {
+		out := dist.CalculateBatch([][]float32{a, b}, b)
+		vAssert(len(out) == 2, "batch-len")
+		vAssert(vSameF32(out[0], dist.Calculate(a, b)), "batch-elementwise")
+		vAssert(vSameF32(out[1], dist.Calculate(b, b)), "batch-elementwise")
+		_ = k
+	}
+	p, perr := cosineDistanceImpl.Preprocess(a)
+	vAssert(vSameVec(a, a0), "preprocess-leaves-argument")
+	q := vCopy(a)
+	ierr := cosineDistanceImpl.PreprocessInPlace(q)
+	vAssert((perr == nil) == (ierr == nil), "preprocess-errors-agree")
+	vAssert((perr == nil) == (n != 0), "only-zero-vector-rejected")
+	if perr == nil {
+		vAssert(vSameVec(p, q), "inplace-equals-preprocess")
+		vAssert(vSameVec(Normalize(a), p), "normalize-equals-cosine-preprocess")
+	}
+	vCover("ran")
+}
+
+// one non-zero component at any position: Norm = |x|, l2 = |x-y|, dot = x*y exactly, and the unit vector
+// has +-1 there — whatever the summation order, so no component may be skipped or counted twice.
+func H_C18_wide_onehot()   { vWideOneHot([]int{8, 9, 16, 33}, 9) }
+func H_C18_wide_onehot_t() { vWideOneHot(vWideDims, 17) }
+
+func vWideOneHot(dims []int, allPosUpTo int) {
+	d := dims[vChoose("dim", len(dims))]
+	var pos int
+	if d <= allPosUpTo {
+		pos = vChoose("pos", d)
+	} else {
+		pos = []int{0, 1, 7, 8, d / 2, d - 9, d - 8, d - 2, d - 1}[vChoose("pos", 9)]
+	}
+	x, y := vGrid32("x"), vGrid32("y")
+	vAssume(x != 0)
+	a, b := make([]float32, d), make([]float32, d)
+	a[pos], b[pos] = x, y
+	vAssert(Norm(a) == vAbs32(x), "norm-of-one-hot")
+	sq := l2SquaredDistanceImpl.Calculate(a, b)
+	vAssert(sq == (x-y)*(x-y), "l2sq-of-one-hot")
+	// (sqrt((x-y)^2) == |x-y| itself is beyond cvc5 within 60 s; the square root is taken of the value just checked)
+	vAssert(vSameF32(euclideanDistanceImpl.Calculate(a, b), float32(math.Sqrt(float64(sq)))), "l2-of-one-hot")
+	dot := x * y
+	if dot > 1 {
+		dot = 1
+	} else if dot < -1 {
+		dot = -1
+	}
+	vAssert(cosineDistanceImpl.Calculate(a, b) == 1-dot, "cosine-of-one-hot")
+	p, err := cosineDistanceImpl.Preprocess(a)
+	vAssert(err == nil && len(p) == d, "preprocess-ok")
+	vAssert(vAbs32(vAbs32(p[pos])-1) <= 1e-6, "unit-component")
+	vAssert((p[pos] > 0) == (x > 0), "unit-component-sign")
+	for j := range p {
+		if j != pos {
+			vAssert(p[j] == 0, "other-components-zero")
+		}
+	}
+	vAssert(vAbs32(Norm(Normalize(a))-1) <= 1e-6, "normalize-unit")
+	vCover("ran")
+}
